@@ -36,6 +36,8 @@ type PKI struct {
 	SrvShort     KeyPair // GoodCA, matching names, expires 1h after the epoch (clock-jump cases)
 	CliGood      KeyPair // client certificate by GoodCA
 	CliForeign   KeyPair // client certificate by ForeignCA
+	ImpostorCA   KeyPair // same subject name as GoodCA, another key: a client holding its certificates sends them when asked for GoodCA's
+	CliImpostor  KeyPair // client certificate by ImpostorCA
 }
 
 var (
@@ -127,6 +129,8 @@ func GetPKI() *PKI {
 		p.SrvShort = mkLeaf(p.GoodCA, "server.test", 14, names, ips, nb, Epoch.Add(time.Hour), false)
 		p.CliGood = mkLeaf(p.GoodCA, "client good", 20, nil, nil, nb, na, true)
 		p.CliForeign = mkLeaf(p.ForeignCA, "client foreign", 21, nil, nil, nb, na, true)
+		p.ImpostorCA = mkCA("verif good CA", 3)
+		p.CliImpostor = mkLeaf(p.ImpostorCA, "client impostor", 22, nil, nil, nb, na, true)
 		pki = p
 	})
 	return pki
